@@ -103,6 +103,7 @@ pub struct World {
     pub cellstat: Vec<(u32, CellStatus)>,
     pub act_next: usize,
     pub stalls: Vec<Stall>,
+    pub unflushed_reported: bool,
     pub fault_fired: Option<u64>,
     pub fault_on_performed: bool,
     pub persistent: Option<FaultKind>,
@@ -234,6 +235,7 @@ impl World {
             cellstat: Vec::new(),
             act_next: 0,
             stalls: Vec::new(),
+            unflushed_reported: false,
             fault_fired: None,
             fault_on_performed: false,
             persistent: None,
@@ -414,14 +416,22 @@ impl World {
                 });
                 // give up on gating so that the run can finish
                 self.decode_stopped = true;
-            } else if self.sbytes.len() != self.flushed && self.delivered == self.released {
-                self.stalls.push(Stall {
-                    op,
-                    unit: self.answered,
-                    what: "server waits for input with written but unflushed bytes",
-                });
-                self.decode_stopped = true;
             }
+        }
+        // ... and, whatever the client still expects (also after a command that the model says
+        // ends the connection): nothing written may sit unflushed while the server waits
+        if !self.unflushed_reported
+            && self.stalls.is_empty()
+            && self.sbytes.len() != self.flushed
+            && self.delivered == self.released
+        {
+            self.unflushed_reported = true;
+            self.stalls.push(Stall {
+                op,
+                unit: self.answered,
+                what: "server waits for input with written but unflushed bytes",
+            });
+            self.decode_stopped = true;
         }
         if self.delivered < self.released {
             return;
